@@ -15,10 +15,8 @@ TEXT = {
          "width 1..63 the builder accepts, establishes the encoding and all queries (get, rank, rank_zero, select, select_zero, pred, succ, iterators) equal "
          "the set-level spec for every argument in both modes; correspondence exhaustive for n <= 8/10, bucket-boundary stress and n up to 2^64-1.",
          "the f64 width rule is a parameter (read from the implementation's bytes, checked admissible); the plain bitvector `high` is used through its proven interface"),
- "C03": ("Lean proofs for the run codec (round trip, prefix-freeness, <= 22 units), the sample-index arithmetic and range contract, block binary search, "
-         "builder invariant and the run iterator yielding exactly the maximal runs for every accepted call list; queries get/rank/select end-to-end are "
-         "tied by correspondence (lengths to 2^64-1, 1..100+ blocks, blocks closed early). Partial: end-to-end query theorems are not yet composed.",
-         "partial proof: query correctness from the correct block is carried by correspondence"),
+ "C03": ('Unbounded Lean proof (full statement): for every run list and every accepted builder call history the vector can be constructed (From<RLBuilder> never faults) and len, counts, get, rank, rank_zero, select, select_zero and the first item of predecessor/successor equal the list-level spec for EVERY argument in both arithmetic modes; run iterator = maximal runs with running rank/offset; codec, sample-index arithmetic, range contract and block search proven; correspondence with lengths to 2^64-1, 1..100+ blocks, skewed universes, blocks closed early.',
+         'hand-written model of rl_vector.rs; loaded (not built) vectors are covered through the codec round trip of C06'),
  "C04": ("Unbounded Lean proof by induction over levels: map_down sends i to the position of V[i] in the stable sort by reversed bits, map_up inverts it, "
          "get/rank/select/inverse_select/contains/value iteration/pred/succ equal the list-level definitions for every vector, index, rank and value "
          "(incl. absent / out-of-alphabet), both modes; correspondence exhaustive for small vectors over widths 1..3 and random up to width 13/16, five item types.",
@@ -26,37 +24,26 @@ TEXT = {
  "C05": ("Unbounded Lean proof: invariant + refinement to List Bool / List Nat for every operation and hence every finite history, canonicity "
          "(same width and content => identical value, bytes, count_ones), pack keeps content and selects the minimal width; correspondence on all "
          "histories of depth 3/4 over a 10-op alphabet and random histories with values wider than the width.", "hand-written model of raw_vector.rs / int_vector.rs"),
- "C06": ("Lean proof of the codec law (round trip with arbitrary trailing data, exact length, every strict prefix refused) for every primitive codec, "
-         "closed under sequencing/option, and for RawVec, IntVec, rank/select supports and BitVector with all 8 support subsets; byte-level corollaries. "
-         "Partial: the composite codecs (sparse, RL, wavelet matrix) are tied by correspondence (round trip, sizes, back-to-back streams) only.",
-         "a file is modelled as its list of complete 8-byte elements"),
- "C07": ("A format specification written from SERIALIZATION.md alone (independent decoders) with Lean theorems relating it to the model's codecs in both "
-         "directions for raw/int/bit vectors (and sparse where proven); correspondence: the implementation's bytes are decoded by the document decoder, and "
-         "files produced by an independent document-level encoder (supports absent, arbitrary admissible widths) are loaded and queried.",
-         "partial: RL / wavelet-matrix directions by correspondence only"),
- "C08": ("Partial proof: in the model every unchecked access is `getW`/`tableU`/`selWord`, whose out-of-range outcome is the distinct value `oob`; the "
-         "theorems `op = ok _` for rank, select, scans, iterators (any call history, any k) and in-word select hold in BOTH arithmetic modes, i.e. no "
-         "out-of-range index is ever formed. Real memory accesses are tied to this by bounds hooks compiled into the *_unchecked accessors and run in all four "
-         "build configurations (overflow checks on/off x BMI2 on/off).",
+ "C06": ('Lean proof of the codec law (round trip with arbitrary trailing data, exact length, back-to-back streams) for every primitive codec, closed under sequencing/option, for RawVec, IntVec, rank/select supports, BitVector with all 8 support subsets AND the composite codecs sparse / run-length / wavelet matrix (core) for every value satisfying the stated well-formedness predicates, which builder outputs are proven to satisfy; byte-level corollaries.',
+         "a file is modelled as its list of complete 8-byte elements; 'every loaded value is well-formed' proven in part"),
+ "C07": ("A format specification written from SERIALIZATION.md alone (independent decoders) with Lean theorems relating it to the model's codecs in BOTH directions for all six structure types: written files decode by the document to the same content (RL for every accepted builder history), and document-valid files (supports absent, any admissible width 1..63, any sufficient sample width, minimally encoded RL integers) load to a value satisfying the invariant from which all queries follow. Correspondence: the implementation's bytes are decoded by the document decoder (also after mutation histories), and files from an independent document-level encoder (all widths 1..64) are loaded and queried.",
+         'reading choices where the document is silent are listed in Props/C07.lean; width 64 by correspondence (F13 repaired)'),
+ "C08": ('Partial proof: in the model every unchecked access is `getW`/`tableU`/`selWord`, whose out-of-range outcome is the distinct value `oob`; the theorems `op = ok _` for the plain bitvector (rank, select, scans, iterators under any call history, in-word select), the sparse vector, the run-length vector (any accepted builder history) and the wavelet matrix, for every argument, hold in BOTH arithmetic modes, i.e. no out-of-range index is ever formed. Real memory accesses are tied to this by bounds hooks compiled into the *_unchecked accessors and run in all four build configurations (overflow checks on/off x BMI2 on/off), including the public support-level API.',
          "runtime part (actual memory accesses, Vec::load's set_len, mapped slices) is observed through hooks, not proven"),
- "C09": ("Lean proof that the documented out-of-range answers are returned for EVERY argument value (arguments are naturals, so every usize is covered) "
-         "in both modes: rank clamp, select none, empty iterators, predecessor/successor at and beyond len and usize::MAX, nth/nth_back beyond the remainder, "
-         "wavelet matrix and core mappings total; constructors reject invalid widths. Correspondence on the boundary grid in both profiles.", ""),
- "C10": ("Lean simulation proofs: the two-cursor iterators, OneIter<T> over set/unset bits (next, next_back, nth k, nth_back k for every k, len), the sparse "
-         "set-bit / all-bits / zero iterators refine a deque over the reference sequence for every finite call history; positioned iterators continue with "
-         "consecutive ranks. RL iterators and ValueIter: correspondence (exhaustive call histories of depth 3/4).", "partial for RL iterators / ValueIter"),
- "C11": ("Canonicity theorems (RawVec/IntVec: equal content => equal value), builder determinism for sparse (encoding is a function of (n, w, P)) and RL "
-         "(decomposition independence with the repaired set_len) + correspondence over all 27 conversion chains and builder decompositions comparing == and bytes.",
-         "partial: chain-level statement is by correspondence"),
+ "C09": ('Lean proof that the documented out-of-range answers are returned for EVERY argument value (arguments are naturals, so every usize is covered) in both modes, per structure: plain bitvector, sparse (set and multiset), run-length, wavelet matrix and core mappings (rank clamp, select none, empty iterators, predecessor/successor at and beyond len and usize::MAX), two-cursor iterators, constructors rejecting invalid widths; the three bitvector types agree on a common bit sequence. Correspondence on the boundary grid in both profiles.',
+         ''),
+ "C10": ('Lean simulation proofs: for every finite call history over the full alphabet (next, next_back, nth k, nth_back k for every k, len) the two-cursor iterators, OneIter<T>, the sparse one/bit/zero iterators (incl. the default nth), positioned iterators, the run-length run/bit/one/zero/select iterators, the wavelet-matrix ValueIter / iter / IntoIter and IntVector IntoIter refine a deque over the reference sequence. Correspondence: exhaustive call histories of depth 3/4.',
+         'RL predecessor/successor iterators: first item proven, continuation by correspondence'),
+ "C11": ('Canonicity theorems: RawVec/IntVec equal content => equal value; sparse encoding is a function of (n, w, P); run-length: any two accepted builder call histories describing the same bits reach the same builder, the same vector and identical bytes; round trips and chains between plain, sparse and run-length representations + correspondence over all 27 conversion chains and builder decompositions comparing == and bytes.',
+         'the 27 chains are not one enumerated theorem (they follow by composition)'),
  "C12": ("Unbounded Lean proof: writer invariant (flushed words ++ buffer = everything pushed; carry-over < 64 bits) for every width, buffer size "
          "(incl. 0 and non-multiples) and push history; file after close = serialization of the in-memory vector; len exact; close idempotent; failing sink "
          "never yields a reported success with an incomplete file.", "file system modelled as header region + append-only body"),
  "C13": ("Lean proof: for a file that is any concatenation pre ++ ser x ++ post each view constructor at offset |pre| returns the content, with offset + "
          "map_len = next offset (views tile); every offset >= length refused; every truncation refused; mode-checked arithmetic. Correspondence on "
          "generated concatenations, all outside offsets up to usize::MAX, all truncations.", ""),
- "C14": ("Lean proof of the prefix law (every strict byte prefix of a serialization fails to load, with EOF) for all proven-lawful codecs and skip_option; "
-         "sink law and writer failure law over a budgeted sink. OS part (RLIMIT_FSIZE) observed. Composite codecs by correspondence (every cut / budget on small structures).",
-         "partial: kernel write failures observed, not modelled beyond a budget"),
+ "C14": ('Lean proof of the prefix law (every strict byte prefix of a serialization fails to load with EOF, never a panic or a value) for all codecs incl. sparse, run-length and wavelet matrix and back-to-back streams, and skip_option; sink law and writer failure law over a budgeted sink. OS part (RLIMIT_FSIZE) observed; serialize into a failing sink by correspondence (every budget on small structures).',
+         'partial: kernel write failures observed, not modelled beyond a budget'),
  "C15": ("Same model and theorems as C02 over non-decreasing lists (multiset mode, overfull allowed): select, rank, get, pred (last occurrence), succ "
          "(first occurrence), set-bit iterator both directions, all-bits iterator skipping duplicates, acceptance exactly of non-decreasing sequences.", ""),
  "C16": ("Lean proof by induction over call histories: a call is rejected exactly under the documented conditions and rejected calls change nothing; "
@@ -71,9 +58,8 @@ TEXT = {
  "C19": ("Lean proof: enable_* idempotent and commuting (all six orders), every subset of supports serializes and loads back to the same subset, "
          "enabling the rest reproduces the fully enabled value, answers independent of which supports are present; skip_option moves exactly past the "
          "structure (with the generated flag that the code checks the skipped length).", ""),
- "C20": ("Partial proof: the sequence of atomic operations of temp_file_name is extracted from the source on every run; for a single fetch_add whose result "
-         "names the file, names are pairwise distinct (strictly increasing, contiguous) along EVERY sequentially consistent schedule of ANY number of threads.",
-         "hardware atomicity / SC of fetch_add assumed; string formatting injectivity not modelled"),
+ "C20": ("Proof: the sequence of atomic operations and the format! call of temp_file_name are extracted from the source on every run; for a single fetch_add whose result names the file, counters are pairwise distinct along EVERY sequentially consistent schedule of ANY number of threads, and the rendered names/paths (decimal formatting injective, counter last after '_') are pairwise distinct and contain the caller's name part, for every assignment of name parts.",
+         'hardware atomicity / SC of fetch_add, std PathBuf::push and Display assumed'),
 }
 
 
